@@ -46,13 +46,13 @@ Definition c04_roundtrip (dbg : bool) (T : Z) (ss : list node) : option (list Z)
   end.
 
 (** the correspondence domain (the harness refuses anything else, so that a shrinking step cannot
-    ask either side for 2^30 words): at most 2^13 search values in the window, Decode on heights <= 14 *)
+    ask either side for 2^30 words): at most 2^13 search values in the window, Decode on heights <= 17 *)
 Definition c04_win_ok (T f t : Z) : bool :=
   let h := Height T in
   let t0 := shr64 t 32 + 1 in
   let tt := if t0 >? 2 ^ h then 2 ^ h else t0 in
   tt - shr64 f 32 <=? 8192.
-Definition c04_dec_ok (T : Z) : bool := Height T <=? 14.
+Definition c04_dec_ok (T : Z) : bool := Height T <=? 17.
 
 Definition c04_run_allpaths (a : list val) : val :=
   match a with
@@ -232,6 +232,24 @@ Definition c04_spec_subtree (a : list val) : val :=
       | _, _ => VBad end
   | _ => VBad end.
 
+(** a session: AllPaths / Decode calls executed in order in one process (a result that depends on
+    state left behind by an earlier call - a cache keyed too coarsely - differs from the model, which
+    answers every call on its own).  A call is [0; T; from; to] or [1; T; bm]. *)
+Definition c04_call (fa fd : list val -> val) (c : val) : val :=
+  match c with
+  | VL (VZ 0 :: rest) => fa rest
+  | VL (VZ 1 :: rest) => fd rest
+  | _ => VBad
+  end.
+Definition c04_is_bad (v : val) : bool := match v with VBad => true | _ => false end.
+Definition c04_session (fa fd : list val -> val) (a : list val) : val :=
+  match a with
+  | [VL calls] =>
+      let rs := map (c04_call fa fd) calls in
+      if existsb c04_is_bad rs then VBad else VL rs
+  | _ => VBad
+  end.
+
 Definition c04_run_roundtrip (dbg : bool) (a : list val) : val :=
   match a with
   | [T; ss] => match as_z T, c04_nodes ss with
@@ -265,6 +283,8 @@ Definition ops_C04 : list opdef := [
   (* Decode(T, Of(map PathToIndex S)) for a sub-list S of the stored nodes: the words of S *)
   {| op_name := "bmtree.Decode/roundtrip"; op_run := c04_run_roundtrip false; op_spec := fun_spec c04_spec_roundtrip |};
   {| op_name := "bmtree.Decode/roundtrip/debug"; op_run := c04_run_roundtrip true; op_spec := fun_spec c04_spec_roundtrip |};
+  {| op_name := "bmtree.Session"; op_run := c04_session c04_run_allpaths c04_run_decode;
+     op_spec := fun_spec (c04_session c04_spec_allpaths c04_spec_decode) |};
   {| op_name := "bmtree.AllPaths/subtree"; op_run := c04_run_subtree; op_spec := fun_spec c04_spec_subtree |};
   (* keys -> PathsOf -> PathToIndex -> Of -> Decode *)
   {| op_name := "bmtree.PathsOf/decode"; op_run := c04_run_keys false; op_spec := fun_spec c04_spec_keys |};
